@@ -152,6 +152,13 @@ def skeleton(body, consts, extra_patterns=()):
         items.append((m.start(), "err", m.group(1)))
     for rx, kind, name in extra_patterns:
         for m in re.finditer(rx, body):
+            if name == "@cond":
+                # the complete condition between `if` and the `{` that opens the block, so that a
+                # condition that was extended or narrowed no longer matches the model's
+                j = body.index("{", m.end() - 1) if body[m.end() - 1] != "{" else m.end() - 1
+                k = body.index("if", m.start()) + 2
+                items.append((m.start(), kind, " ".join(body[k:j].split())))
+                continue
             nm = name if isinstance(name, str) else name(m)
             if kind == "call" and rx.endswith("\\("):
                 a = _resolve(_first_arg(body, m.end()), m.start(), lets, consts)
@@ -172,15 +179,16 @@ SAVE_EXTRA = [
     (r"validate_groups\(&self\.groups\)", "check", "validate_groups"),
     (r"self\.font_info\.validate\(\)", "check", "font_info.validate"),
     (r"self\.data\.iter\(\)\.chain\(self\.images\.iter\(\)\)", "force", "data+images"),
-    (r"if\s+!\s*self\.font_info\.is_empty\(\)", "guard", "font_info"),
-    (r"if\s+!\s*lib\.is_empty\(\)", "guard", "lib+objectlibs"),
-    (r"if\s+!\s*self\.(groups|kerning|features|data|images)\.is_empty\(\)", "guard", lambda m: m.group(1)),
+    (r"if\s+!\s*self\.font_info\.is_empty\(\)", "guard", "@cond"),
+    (r"if\s+!\s*lib\.is_empty\(\)", "guard", "@cond"),
+    (r"if\s+!\s*self\.(groups|kerning|features|data|images)\.is_empty\(\)", "guard", "@cond"),
+    (r"if\s+path\b[^{;]*\{", "guard", "@cond"),
     (r"layer\.save_with_options\(", "layer", "save_with_options"),
 ]
 LAYER_SAVE_EXTRA = [
     (r"self\.layerinfo_to_file_if_needed\(", "call", "layerinfo_to_file_if_needed"),
     (r"glyph\.save_with_options\(", "glyph", "save_with_options"),
-    (r"self\.color\.is_none\(\)\s*&&\s*self\.lib\.is_empty\(\)", "guard", "color+lib"),
+    (r"if\s+self\.color\.is_none\(\)", "guard", "@cond"),
 ]
 GLYPH_SAVE_EXTRA = [
     (r"self\.lib\.contains_key\(PUBLIC_OBJECT_LIBS_KEY\)", "check", "public.objectLibs"),
@@ -208,7 +216,7 @@ def save_skeletons(repo):
 
 
 LOAD_EXTRA = [
-    (r"request\.(lib|groups|kerning|features|data|images)\s*&&", "guard", lambda m: "request." + m.group(1)),
+    (r"if\s+request\.(lib|groups|kerning|features|data|images)\b", "guard", "@cond"),
     (r"load_lib\(", "call", "load_lib"),
     (r"load_fontinfo\(", "call", "load_fontinfo"),
     (r"load_groups\(", "call", "load_groups"),
@@ -218,16 +226,16 @@ LOAD_EXTRA = [
     (r"DataStore::new\(", "open_store", "data"),
     (r"ImageStore::new\(", "open_store", "images"),
     (r"upconvert_ufov1_robofab_data\(", "call", "upconvert_ufov1_robofab_data"),
-    (r"meta\.format_version\s*==\s*FormatVersion::V1\s*&&", "guard", "format_version==V1"),
+    (r"if\s+meta\.format_version\s*==\s*FormatVersion::V1", "guard", "@cond"),
 ]
 LAYERSET_EXTRA = [
-    (r"meta\.format_version\s*==\s*FormatVersion::V3\s*&&", "guard", "format_version==V3"),
+    (r"if\s+meta\.format_version\s*==\s*FormatVersion::V3", "guard", "@cond"),
     (r"LayerContents::load\(", "call", "LayerContents::load"),
 ]
 LAYERCONTENTS_EXTRA = [
     (r"filter\.should_load\(", "guard", "filter.should_load"),
     (r"Layer::load_impl\(", "call", "Layer::load_impl"),
-    (r"!\s*filter\.includes_default_layer\(\)", "guard", "!filter.includes_default_layer"),
+    (r"if\s+!\s*filter\.includes_default_layer\(\)", "guard", "@cond"),
 ]
 LAYERLOAD_EXTRA = [
     (r"Glyph::load_with_names\(", "call", "Glyph::load_with_names"),
